@@ -1,67 +1,135 @@
 ------------------------------- MODULE MainLoop -------------------------------
 (* C12 generator + design model of urwid.MainLoop.run(): a session (timed inputs, alarms,   *)
-(* pipe writes, resizes), a fault plan (callback kind, invocation index, ExitMainLoop or     *)
-(* error) and the main loop's own control flow as coded (start, serve, idle redraw, the      *)
-(* two ways out of _run).  Every event the model produces goes through the C12 monitor       *)
-(* (MainLoopOps!JudgeM); TLC checks all sessions x fault points within bounds, and that      *)
-(* deliberately wrong main loops (Bad) are refuted.  Sessions are exported to drive the      *)
-(* real MainLoop (spec -> code).                                                             *)
+(* pipe writes, resizes; inputs may share one read of the terminal, or be cut in two reads   *)
+(* with the screen's incomplete-sequence timer in between), a fault plan (callback kind,     *)
+(* invocation index, ExitMainLoop or error), the callback from which the application swaps   *)
+(* the topmost widget, and the main loop's own control flow as coded (start, serve, idle     *)
+(* redraw, the two ways out of _run).  Every event the model produces goes through the C12  *)
+(* monitor (MainLoopOps!JudgeM); TLC checks all sessions x fault points within bounds, and   *)
+(* that deliberately wrong main loops (Bad: no stop on error, unhandled input skipped, no    *)
+(* redraw, topmost widget looked up once per batch, incomplete-sequence timer left armed or  *)
+(* never armed)                                                                              *)
+(* are refuted.  Sessions are exported to drive the real MainLoop (spec -> code).            *)
 EXTENDS MainLoopOps, FiniteSets
 
-CONSTANTS MaxEvents, Kinds, Times, FaultKinds, Bad
+CONSTANTS MaxEvents, Kinds, Times, FaultKinds, Bad,
+          Cuts,      \* 0: the bytes of an input arrive in one read; k > 0: its first k bytes arrive, the rest Gap later (a second read)
+          Also,      \* "-", or an input that arrives just before the event's own input in the SAME read (typed ahead, pasted)
+          Swaps      \* "none", or the callback from which the application replaces the topmost widget (loop.widget = other view), once
 
-VARIABLES scn, m, why, pc, rest, cnt, tty, sigs, steps
-vars == <<scn, m, why, pc, rest, cnt, tty, sigs, steps>>
+VARIABLES scn, m, why, pc, rest, cnt, tty, sigs, steps,
+          pend,      \* the input whose first bytes the screen holds while it waits for the rest ("-": none)
+          clock      \* the time
+vars == <<scn, m, why, pc, rest, cnt, tty, sigs, steps, pend, clock>>
 
 W == 12
 H == 3
+Gap == 5                   \* time between the two reads of a split input: well within CompleteWait
+CompleteWait == 125        \* Screen.complete_wait: how long the screen waits for the rest of an incomplete sequence
+ExitAt == 200
 Callbacks == {"filter", "keypress", "mouse_event", "unhandled", "alarm", "pipe", "render"}
+InputKinds == {"keyH", "keyU", "keyX", "up", "ctrlL", "two", "mouseH", "mouseU", "meta", "esc"}
+Splittable == {"up", "meta", "mouseH", "mouseU"}          \* inputs of more than one byte that decode to ONE event
+NBytes(k) == CASE k = "up" -> 3 [] k = "meta" -> 2 [] k \in {"mouseH", "mouseU"} -> 9 [] OTHER -> 1
+ASSUME "esc" \notin Also /\ "-" \in Also /\ 0 \in Cuts /\ "none" \in Swaps
 
-EventSeqs == UNION {[1..n -> [at : Times, kind : Kinds]] : n \in 0..MaxEvents}
+KeysOf(k) ==
+  CASE k = "keyH" -> <<"a">> [] k = "keyU" -> <<"q">> [] k = "keyX" -> <<"x">> [] k = "up" -> <<"up">> [] k = "ctrlL" -> <<"ctrl l">>
+    [] k = "two" -> <<"a", "q">> [] k = "mouseH" -> <<"mouse press 1 2 1">> [] k = "mouseU" -> <<"mouse press 3 3 0">>
+    [] k = "meta" -> <<"meta z">> [] k = "esc" -> <<"esc">> [] OTHER -> <<>>
+
 Sorted(es) == \A i \in 1..(Len(es) - 1) : es[i].at <= es[i + 1].at
+EvOK(e) == /\ (e.cut > 0 => e.kind \in Splittable /\ e.cut < NBytes(e.kind))
+           /\ (e.also # "-" => e.kind \in InputKinds)
+\* sessions in which what the user typed is unambiguous: nothing is typed after a lone ESC (it would read as a meta key or a
+\* sequence), and nothing else is typed between the two chunks of a split input
+Legal(es) ==
+  /\ Sorted(es) /\ \A i \in 1..Len(es) : EvOK(es[i])
+  /\ \A i, j \in 1..Len(es) : (i # j /\ es[j].kind \in InputKinds) =>
+        /\ (es[i].kind = "esc" => j < i)
+        /\ (es[i].cut > 0 => (es[j].at < es[i].at \/ es[j].at > es[i].at + Gap \/ (es[j].at = es[i].at /\ j < i)))
+EventSeqs == UNION {[1..n -> [at : Times, kind : Kinds, cut : Cuts, also : Also]] : n \in 0..MaxEvents}
 Faults == {[kind |-> "none", idx |-> 0, exc |-> "exit"]} \cup
           [kind : FaultKinds \ {"none"}, idx : 1..2, exc : {"exit", "error"}]
-Scenarios == {[events |-> es, fault |-> f, popups |-> p] : es \in {e \in EventSeqs : Sorted(e)}, f \in Faults, p \in {FALSE}}
+Scenarios == {[events |-> es, fault |-> f, popups |-> p, swap |-> sw] : es \in {e \in EventSeqs : Legal(e)}, f \in Faults, p \in {FALSE}, sw \in Swaps}
+
+\* the session as a timeline: one entry per read / alarm / pipe write / resize; ph = 1, 2: first and second read of a split input
+Ph(e, p) == [at |-> IF p = 2 THEN e.at + Gap ELSE e.at, kind |-> e.kind, cut |-> e.cut, also |-> e.also, ph |-> p]
+Entry(at, kind) == [at |-> at, kind |-> kind, cut |-> 0, also |-> "-", ph |-> 0]
+InsertByTime(q, x) == LET k == Cardinality({i \in 1..Len(q) : q[i].at <= x.at}) IN SubSeq(q, 1, k) \o <<x>> \o SubSeq(q, k + 1, Len(q))
+RECURSIVE AddSeconds(_, _, _)
+AddSeconds(q, es, i) == IF i > Len(es) THEN q ELSE AddSeconds(IF es[i].cut > 0 THEN InsertByTime(q, Ph(es[i], 2)) ELSE q, es, i + 1)
+Timeline(es) == AddSeconds([i \in 1..Len(es) |-> Ph(es[i], IF es[i].cut > 0 THEN 1 ELSE 0)], es, 1) \o <<Entry(ExitAt, "exitalarm")>>
+\* the screen's one timer for an incomplete sequence: (re)armed by every read that leaves a sequence incomplete
+WithoutTimer(q) == SelectSeq(q, LAMBDA x : x.kind # "itimer")
+Arm(q, now) == IF Bad = "noInputTimer" THEN WithoutTimer(q) ELSE InsertByTime(WithoutTimer(q), Entry(now + CompleteWait, "itimer"))
 
 RECURSIVE FoldM(_, _, _)
 FoldM(st, evs, i) ==
   IF i > Len(evs) THEN [m |-> st, why |-> "-"]
   ELSE LET r == JudgeM(st, evs[i]) IN IF r.why # "-" THEN r ELSE FoldM(r.m, evs, i + 1)
 
-Key(k, h) == [cb |-> "keypress", ev |-> [t |-> "keypress", key |-> k, handled |-> h, w |-> 1]]
+Key(k, h) == [cb |-> "keypress", ev |-> [t |-> "keypress", key |-> k, handled |-> h, w |-> 1]]      \* w is filled in by RunMicro
 Mouse(k, h) == [cb |-> "mouse_event", ev |-> [t |-> "mouse_event", key |-> k, handled |-> h, w |-> 1]]
 Unh(k) == [cb |-> "unhandled", ev |-> [t |-> "unhandled", key |-> k]]
 Filt(ks, out) == [cb |-> "filter", ev |-> [t |-> "filter", keys |-> ks, out |-> out]]
 Plain(e) == [cb |-> "", ev |-> e]
 SkipU == Bad = "skipUnhandled"
 
-\* what MainLoop does, callback by callback, for one environment event
-Micro(kind) ==
-  CASE kind = "keyH"   -> <<Plain([t |-> "arrive", keys |-> <<"a">>]), Filt(<<"a">>, <<"a">>), Key("a", TRUE)>>
-    [] kind = "keyU"   -> <<Plain([t |-> "arrive", keys |-> <<"q">>]), Filt(<<"q">>, <<"q">>), Key("q", FALSE)>> \o (IF SkipU THEN <<>> ELSE <<Unh("q")>>)
-    [] kind = "keyX"   -> <<Plain([t |-> "arrive", keys |-> <<"x">>]), Filt(<<"x">>, <<>>)>>
-    [] kind = "up"     -> <<Plain([t |-> "arrive", keys |-> <<"up">>]), Filt(<<"up">>, <<"up">>), Key("up", FALSE), Unh("up")>>
-    [] kind = "ctrlL"  -> <<Plain([t |-> "arrive", keys |-> <<"ctrl l">>]), Filt(<<"ctrl l">>, <<"ctrl l">>), Key("ctrl l", FALSE)>>
-    [] kind = "two"    -> <<Plain([t |-> "arrive", keys |-> <<"a", "q">>]), Filt(<<"a", "q">>, <<"a", "q">>), Key("a", TRUE), Key("q", FALSE), Unh("q")>>
-    [] kind = "mouseH" -> <<Plain([t |-> "arrive", keys |-> <<"mouse press 1 2 1">>]), Filt(<<"mouse press 1 2 1">>, <<"mouse press 1 2 1">>), Mouse("mouse press 1 2 1", TRUE)>>
-    [] kind = "mouseU" -> <<Plain([t |-> "arrive", keys |-> <<"mouse press 3 3 0">>]), Filt(<<"mouse press 3 3 0">>, <<"mouse press 3 3 0">>), Mouse("mouse press 3 3 0", FALSE), Unh("mouse press 3 3 0")>>
-    [] kind = "resize" -> <<Plain([t |-> "arrive_resize"]), Filt(<<"window resize">>, <<"window resize">>)>>
-    [] kind = "alarm"  -> <<[cb |-> "alarm", ev |-> [t |-> "alarm"]]>>
-    [] kind = "pipe"   -> <<[cb |-> "pipe", ev |-> [t |-> "pipe"]]>>
-    [] kind = "exitalarm" -> <<Plain([t |-> "raise", kind |-> "exit"])>>
-    [] OTHER -> <<>>
+\* what process_input does with one filtered input
+Dispatch(k) ==
+  CASE k = "a" -> <<Key("a", TRUE)>>
+    [] k = "q" -> <<Key("q", FALSE)>> \o (IF SkipU THEN <<>> ELSE <<Unh("q")>>)
+    [] k = "ctrl l" -> <<Key("ctrl l", FALSE)>>              \* REDRAW_SCREEN command: screen.clear(), not passed on
+    [] k = "mouse press 1 2 1" -> <<Mouse(k, TRUE)>>
+    [] k = "mouse press 3 3 0" -> <<Mouse(k, FALSE), Unh(k)>>
+    [] OTHER -> <<Key(k, FALSE), Unh(k)>>
+RECURSIVE DispatchAll(_)
+DispatchAll(ks) == IF ks = <<>> THEN <<>> ELSE Dispatch(Head(ks)) \o DispatchAll(Tail(ks))
+RECURSIVE Flat(_)
+Flat(qs) == IF qs = <<>> THEN <<>> ELSE Head(qs) \o Flat(Tail(qs))
+\* one read of the input descriptor: the complete inputs `atoms` (in the order typed), possibly followed by the first bytes of
+\* another one (partial = "part"), or by a lone ESC ("esc").  Everything decoded goes to the filter in ONE call, then key by key
+\* to the widget
+Read(atoms, partial) ==
+  LET ks == Flat([i \in 1..Len(atoms) |-> KeysOf(atoms[i])])
+      out == SelectSeq(ks, LAMBDA k : k # "x")
+  IN [i \in 1..Len(atoms) |-> Plain([t |-> "arrive", keys |-> KeysOf(atoms[i])])]
+     \o (CASE partial = "part" -> <<Plain([t |-> "partial"])>>
+           [] partial = "esc" -> <<Plain([t |-> "arrive_held", keys |-> <<"esc">>, wait |-> CompleteWait])>>
+           [] OTHER -> <<>>)
+     \o <<Filt(ks, out)>> \o DispatchAll(out)
 
-\* run micro-ops, counting callback invocations and injecting the planned fault
-RECURSIVE RunMicro(_, _, _, _)
-RunMicro(ops, i, c, acc) ==
+\* what Screen + MainLoop do, callback by callback, for one timeline entry
+Micro(e) ==
+  LET pre == IF e.also = "-" THEN <<>> ELSE <<e.also>>
+  IN CASE e.kind = "esc" -> Read(pre, "esc")         \* ESC begins every escape sequence: the screen waits for more
+       [] e.kind \in InputKinds /\ e.ph = 0 -> Read(pre \o <<e.kind>>, "")
+       [] e.kind \in InputKinds /\ e.ph = 1 -> Read(pre, "part")
+       [] e.kind \in InputKinds /\ e.ph = 2 -> Read(<<e.kind>>, "")
+       \* the wait is over: what the screen holds is all there is.  A timer that was left armed although its sequence has
+       \* been completed and delivered (Bad = "staleInputTimer") decodes its old bytes again: a key nobody typed
+       [] e.kind = "itimer" -> <<Filt(<<"esc">>, <<"esc">>)>> \o Dispatch("esc")
+       [] e.kind = "resize" -> <<Plain([t |-> "arrive_resize"]), Filt(<<"window resize">>, <<"window resize">>)>>
+       [] e.kind = "alarm"  -> <<[cb |-> "alarm", ev |-> [t |-> "alarm"]]>>
+       [] e.kind = "pipe"   -> <<[cb |-> "pipe", ev |-> [t |-> "pipe"]]>>
+       [] e.kind = "exitalarm" -> <<Plain([t |-> "raise", kind |-> "exit"])>>
+       [] OTHER -> <<>>
+
+\* run micro-ops, counting callback invocations and injecting the planned fault.  top: the topmost widget now; top0: the one at
+\* the beginning of the batch (what a main loop that looks it up once per batch, Bad = "staleTop", keeps using)
+RECURSIVE RunMicro(_, _, _, _, _, _)
+RunMicro(ops, i, c, acc, top, top0) ==
   IF i > Len(ops) THEN [evs |-> acc, cnt |-> c, raised |-> ""]
   ELSE LET op == ops[i]
            c2 == IF op.cb = "" THEN c ELSE [c EXCEPT ![op.cb] = @ + 1]
            hit == op.cb # "" /\ scn.fault.kind = op.cb /\ scn.fault.idx = c2[op.cb]
            isExit == op.ev.t = "raise"
-       IN IF hit THEN [evs |-> acc \o <<op.ev, [t |-> "raise", kind |-> scn.fault.exc]>>, cnt |-> c2, raised |-> scn.fault.exc]
-          ELSE IF isExit THEN [evs |-> Append(acc, op.ev), cnt |-> c2, raised |-> "exit"]
-          ELSE RunMicro(ops, i + 1, c2, Append(acc, op.ev))
+           ev == IF op.cb \in {"keypress", "mouse_event"} THEN [op.ev EXCEPT !.w = IF Bad = "staleTop" THEN top0 ELSE top] ELSE op.ev
+           swaps == op.cb # "" /\ op.cb = scn.swap /\ top = 1 /\ ~hit
+       IN IF hit THEN [evs |-> acc \o <<ev, [t |-> "raise", kind |-> scn.fault.exc]>>, cnt |-> c2, raised |-> scn.fault.exc]
+          ELSE IF isExit THEN [evs |-> Append(acc, ev), cnt |-> c2, raised |-> "exit"]
+          ELSE RunMicro(ops, i + 1, c2, acc \o <<ev>> \o (IF swaps THEN <<[t |-> "swap", w |-> 2]>> ELSE <<>>), IF swaps THEN 2 ELSE top, top0)
 
 StartTokens == <<[t |-> "decset", n |-> 1049, on |-> TRUE], [t |-> "decset", n |-> 1000, on |-> TRUE],
                  [t |-> "decset", n |-> 1002, on |-> TRUE], [t |-> "decset", n |-> 1006, on |-> TRUE],
@@ -72,44 +140,53 @@ StopTokens == <<[t |-> "decset", n |-> 1006, on |-> FALSE], [t |-> "decset", n |
 
 Init == /\ scn \in Scenarios
         /\ m = InitM(W, H) /\ why = "-" /\ pc = "init"
-        /\ rest = scn.events \o <<[at |-> 200, kind |-> "exitalarm"]>>
+        /\ rest = Timeline(scn.events)
         /\ cnt = [c \in Callbacks |-> 0]
-        /\ tty = "cooked" /\ sigs = "orig" /\ steps = 0
+        /\ tty = "cooked" /\ sigs = "orig" /\ steps = 0 /\ pend = "-" /\ clock = 0
 
 Emit(evs) == LET r == FoldM(m, evs, 1) IN m' = r.m /\ why' = r.why
 
 Start == /\ pc = "init"
          /\ Emit(StartTokens)
          /\ tty' = "cbreak" /\ sigs' = "ours" /\ pc' = "idle"
-         /\ UNCHANGED <<scn, rest, cnt>>
+         /\ UNCHANGED <<scn, rest, cnt, pend, clock>>
 
 \* entering_idle: render the top widget and draw it
 Idle == /\ pc = "idle"
-        /\ LET r == RunMicro(<<[cb |-> "render", ev |-> [t |-> "slow", d |-> 0]]>>, 1, cnt, <<>>)
+        /\ LET r == RunMicro(<<[cb |-> "render", ev |-> [t |-> "slow", d |-> 0]]>>, 1, cnt, <<>>, m.top, m.top)
            IN /\ cnt' = r.cnt
               /\ IF r.raised # "" THEN Emit(r.evs) /\ pc' = r.raised
                  ELSE Emit(r.evs \o (IF Bad = "noRedraw" THEN <<>> ELSE <<[t |-> "draw", gen |-> m.gen]>>)) /\ pc' = "wait"
-        /\ UNCHANGED <<scn, rest, tty, sigs>>
+        /\ UNCHANGED <<scn, rest, tty, sigs, pend, clock>>
 
 Wait == /\ pc = "wait" /\ rest # <<>>
-        /\ Emit(<<[t |-> "wait", timeout |-> 1000, ready |-> <<>>, grace |-> 0], [t |-> "advance", to |-> Head(rest).at]>>)
-        /\ pc' = "serve"
-        /\ UNCHANGED <<scn, rest, cnt, tty, sigs>>
+        /\ Emit(<<[t |-> "wait", timeout |-> Head(rest).at - clock, ready |-> <<>>, grace |-> 0], [t |-> "advance", to |-> Head(rest).at]>>)
+        /\ pc' = "serve" /\ clock' = Head(rest).at
+        /\ UNCHANGED <<scn, rest, cnt, tty, sigs, pend>>
 
 Serve == /\ pc = "serve" /\ rest # <<>>
-         /\ LET r == RunMicro(Micro(Head(rest).kind), 1, cnt, <<>>)
-                more == Len(rest) > 1 /\ rest[2].at = Head(rest).at
+         /\ LET e == Head(rest)
+                r == RunMicro(Micro(e), 1, cnt, <<>>, m.top, m.top)
+                starts == e.kind = "esc" \/ (e.kind \in InputKinds /\ e.ph = 1)      \* this read leaves an incomplete sequence with the screen
+                completes == e.kind \in InputKinds /\ e.ph = 2
+                \* every read cancels the pending timer first and arms a new one if a sequence is (still) incomplete
+                rest2 == IF starts THEN Arm(Tail(rest), e.at)
+                         ELSE IF completes THEN (IF Bad = "staleInputTimer" THEN Tail(rest) ELSE WithoutTimer(Tail(rest)))
+                         ELSE IF e.kind = "resize" /\ pend # "-" THEN Arm(Tail(rest), e.at)
+                         ELSE Tail(rest)
+                more == rest2 # <<>> /\ Head(rest2).at = e.at
             IN /\ Emit(r.evs) /\ cnt' = r.cnt
                /\ pc' = IF r.raised # "" THEN r.raised ELSE IF more THEN "serve" ELSE "idle"
-         /\ rest' = Tail(rest)
-         /\ UNCHANGED <<scn, tty, sigs>>
+               /\ rest' = rest2
+               /\ pend' = IF starts THEN e.kind ELSE IF completes \/ e.kind = "itimer" THEN "-" ELSE pend
+         /\ UNCHANGED <<scn, tty, sigs, clock>>
 
 \* ExitMainLoop: event_loop.run() returns, MainLoop.stop() -> screen.stop()
 ExitPath == /\ pc = "exit"
             /\ Emit(<<[t |-> "run_end", outcome |-> "return", exc |-> ""]>> \o StopTokens
                     \o <<[t |-> "final", termios_same |-> TRUE, signals_same |-> TRUE, started |-> FALSE]>>)
             /\ tty' = "cooked" /\ sigs' = "orig" /\ pc' = "done"
-            /\ UNCHANGED <<scn, rest, cnt>>
+            /\ UNCHANGED <<scn, rest, cnt, pend, clock>>
 \* any other exception: except: screen.stop(); raise
 ErrorPath == /\ pc = "error"
              /\ LET stops == Bad # "noStopOnError"
@@ -118,24 +195,28 @@ ErrorPath == /\ pc = "error"
                    /\ tty' = IF stops THEN "cooked" ELSE tty
                    /\ sigs' = IF stops THEN "orig" ELSE sigs
              /\ pc' = "done"
-             /\ UNCHANGED <<scn, rest, cnt>>
+             /\ UNCHANGED <<scn, rest, cnt, pend, clock>>
 
 Next == /\ why = "-" /\ steps' = steps + 1
         /\ (Start \/ Idle \/ Wait \/ Serve \/ ExitPath \/ ErrorPath)
 Spec == Init /\ [][Next]_vars
 
 \* behaviour export: scenario drawn at random in the first step (see EventLoop.tla)
-RandomEvents(n) == [i \in 1..n |-> [at |-> RandomElement(Times), kind |-> RandomElement(Kinds)]]
+RandomEvents(n) == [i \in 1..n |-> [at |-> RandomElement(Times), kind |-> RandomElement(Kinds), cut |-> RandomElement(Cuts), also |-> RandomElement(Also)]]
 SortSeqBy(es) == SortSeq(es, LAMBDA a, b : a.at < b.at)
-SimInit == /\ scn = [events |-> <<>>, fault |-> [kind |-> "none", idx |-> 0, exc |-> "exit"], popups |-> FALSE]
+\* a random draw is made legal: impossible cuts / companions are dropped; if what is left is still ambiguous, the session is typed plainly
+Norm(e) == [e EXCEPT !.cut = IF e.kind \in Splittable /\ @ < NBytes(e.kind) THEN @ ELSE 0, !.also = IF e.kind \in InputKinds THEN @ ELSE "-"]
+PlainEv(e) == [e EXCEPT !.cut = 0, !.also = "-", !.kind = IF @ = "esc" THEN "keyU" ELSE @]
+Sanitize(es) == LET n == [i \in DOMAIN es |-> Norm(es[i])] IN IF Legal(n) THEN n ELSE [i \in DOMAIN es |-> PlainEv(n[i])]
+SimInit == /\ scn = [events |-> <<>>, fault |-> [kind |-> "none", idx |-> 0, exc |-> "exit"], popups |-> FALSE, swap |-> "none"]
            /\ m = InitM(W, H) /\ why = "-" /\ pc = "choose" /\ rest = <<>>
-           /\ cnt = [c \in Callbacks |-> 0] /\ tty = "cooked" /\ sigs = "orig" /\ steps = 0
+           /\ cnt = [c \in Callbacks |-> 0] /\ tty = "cooked" /\ sigs = "orig" /\ steps = 0 /\ pend = "-" /\ clock = 0
 Choose == /\ pc = "choose"
-          /\ scn' = [events |-> SortSeqBy(RandomEvents(RandomElement(1..MaxEvents))), fault |-> RandomElement(Faults),
-                     popups |-> RandomElement(BOOLEAN)]
-          /\ rest' = scn'.events \o <<[at |-> 200, kind |-> "exitalarm"]>>
+          /\ scn' = [events |-> Sanitize(SortSeqBy(RandomEvents(RandomElement(1..MaxEvents)))), fault |-> RandomElement(Faults),
+                     popups |-> RandomElement(BOOLEAN), swap |-> RandomElement(Swaps)]
+          /\ rest' = Timeline(scn'.events)
           /\ pc' = "init"
-          /\ UNCHANGED <<m, why, cnt, tty, sigs, steps>>
+          /\ UNCHANGED <<m, why, cnt, tty, sigs, steps, pend, clock>>
 SimSpec == SimInit /\ [][Choose \/ Next]_vars
 
 MonitorAccepts == why = "-"
